@@ -156,7 +156,7 @@ def run_cli(cli, req, level=None, allow=(), sarif=None, verbose=False, extra=Non
         argv += ["--curve", req["curve"]]
     argv += list(extra or [])
     try:
-        p = subprocess.run(argv, stdout=subprocess.PIPE, stderr=subprocess.PIPE, timeout=timeout)
+        p = subprocess.run(argv, stdout=subprocess.PIPE, stderr=subprocess.PIPE, timeout=timeout, preexec_fn=vlib.limit_memory)
         out = p.stdout.decode("utf-8", "replace")
         rc = p.returncode
         err = p.stderr.decode("utf-8", "replace")
